@@ -424,6 +424,140 @@ template <class T> void tangents (Tally& total, bool thorough)
     });
 }
 
+
+// ---- stage "spline-repeated-keys" (seed C10-u2) ----------------------------------------------------------------------------
+// spline / intermediate with a held (repeated) key. intermediate(q0,q1,q2) takes log(q1^-1 q2) and log(q1^-1 q0); with q2 == q1
+// (or q0 == q1) that product is the identity only up to rounding, so its real part is 1 - k ulp, 1 or 1 + ulp -- a unit
+// quaternion within rounding, for which log must return (nearly) zero. Nothing in the documentation of spline excludes
+// coincident keys (a held key is the ordinary way to pause an animation); slerp's own precondition q1 != -q2 holds.
+// Enumerated: the repeated key B over the whole quaternion alphabet of this file (group + normalised lattice L(2)^4, 648, both tiers)
+// and six unit-within-rounding quaternions (r in {1-ulp, 1, 1+ulp}, v = 0 or 2^k(1,-1,0) with 2^2k ~ eps/4), the other keys A, C over the
+// 10-element key set of interior(), key patterns ABBC, BBAC, ACBB, ABBB, BBBA, BBBB, BBCC. Judged as in interior(): consecutive
+// DISTINCT keys at most 3pi/4 apart, inner arcs with kappa <= 4 (skipped tuples counted).
+// Oracles (all from the documentation / statement, tolerances as derived above for interior() and keys()):
+//   intermediate = q1 exp(-(log(q1^-1 q2) + log(q1^-1 q0))/4) to 48 eps (the log term of a coincident pair is within 8 eps of zero:
+//     the bound only gets smaller);  spline(t=0) = q1, spline(t=1) = q2 to 16 eps;  spline(t) finite and unit to 4 eps and equal
+//     to squad(q1, qa, qb, q2, t) evaluated in long double to 256 eps kappa^2 at 5 interior parameters.
+struct RepCnt
+{
+    long long c_above1 = 0, c_eq1 = 0, c_below1 = 0, tuples = 0, skipped = 0, near_identity_keys = 0, pattern[7] = {0, 0, 0, 0, 0, 0, 0};
+    double    w_int = 0, w_key = 0, w_interior = 0;
+    void      merge (const RepCnt& o)
+    {
+        c_above1 += o.c_above1; c_eq1 += o.c_eq1; c_below1 += o.c_below1; tuples += o.tuples; skipped += o.skipped; near_identity_keys += o.near_identity_keys;
+        for (int i = 0; i < 7; ++i) pattern[i] += o.pattern[i];
+        w_int = std::max (w_int, o.w_int); w_key = std::max (w_key, o.w_key); w_interior = std::max (w_interior, o.w_interior);
+    }
+};
+
+template <class T> void repeated_keys (Tally& total, RepCnt& rtotal, bool thorough)
+{
+    const LD  e = EPS<T> ();
+    const int KI[10][4] = {{2, 0, 0, 0}, {1, 1, 1, 1}, {1, 1, -1, -1}, {0, 2, 0, 0}, {1, -1, 1, -1}, {2, 1, 0, 0}, {2, 0, 1, 1}, {1, 2, -1, 0}, {2, -1, 0, 1}, {1, 0, 0, 2}};
+    std::vector<Quat<T>> K;
+    for (auto& c : KI) K.push_back (Quat<T> ((T) c[0], (T) c[1], (T) c[2], (T) c[3]).normalized ());
+    struct B { Quat<T> q; std::string name; };
+    std::vector<B> S;
+    (void) thorough; // both tiers use the large alphabet: over group + L(1)^4 the product inverse(q)*q is exactly 1 for every key
+    for (auto& x : quat_set<T> (true)) S.push_back ({x.q, x.name});
+    {
+        const T    eps = std::numeric_limits<T>::epsilon (), one = 1;
+        const bool dbl = std::numeric_limits<T>::digits > 30;
+        const T    s   = (T) ldexpl (1.0L, dbl ? -28 : -14); // 2 s^2 = eps/8 resp. eps/4... : norm defect stays below 4.5 eps
+        const T    RS[3] = {(T) (one - eps / 2), one, (T) (one + eps)};
+        const char* RN[3] = {"1-ulp", "1", "1+ulp"};
+        for (int ri = 0; ri < 3; ++ri)
+        {
+            S.push_back ({Quat<T> (RS[ri], 0, 0, 0), std::string ("(") + RN[ri] + ",0,0,0)"});
+            S.push_back ({Quat<T> (RS[ri], s, -s, 0), std::string ("(") + RN[ri] + ",s,-s,0)"});
+            rtotal.near_identity_keys += 2;
+        }
+    }
+    for (auto& b : S)
+    {
+        Quat<T> c = b.q.inverse () * b.q; // classification only (what intermediate() feeds to log for a held key)
+        (c.r > 1 ? rtotal.c_above1 : c.r == 1 ? rtotal.c_eq1 : rtotal.c_below1)++;
+    }
+    const uint64_t nS = S.size (), nK = K.size (), N = nS * nK * nK * 7;
+    const LD       TI[5] = {0.125L, 0.25L, 0.5L, 0.75L, 0.875L};
+    std::mutex     mu;
+    vf::parallel_chunks (N, nK * nK * 7, [&] (uint64_t lo, uint64_t hi, unsigned) {
+        Tally  tl;
+        RepCnt rc;
+        for (uint64_t idx = lo; idx < hi; ++idx)
+        {
+            const int      pat = (int) (idx % 7);
+            const uint64_t ai = (idx / 7) % nK, ci = (idx / 7 / nK) % nK, bi = idx / 7 / nK / nK;
+            // patterns that do not use A and/or C are run once (index 0)
+            static const bool usesA[7] = {true, true, true, true, true, false, false}, usesC[7] = {true, true, true, false, false, false, true};
+            if ((!usesA[pat] && ai) || (!usesC[pat] && ci)) continue;
+            const Quat<T>&A = K[ai], &C = K[ci], &Bq = S[bi].q;
+            const Quat<T>* q[4];
+            switch (pat)
+            {
+                case 0: q[0] = &A;  q[1] = &Bq; q[2] = &Bq; q[3] = &C;  break; // ABBC: the held key is the segment itself
+                case 1: q[0] = &Bq; q[1] = &Bq; q[2] = &A;  q[3] = &C;  break; // BBAC
+                case 2: q[0] = &A;  q[1] = &C;  q[2] = &Bq; q[3] = &Bq; break; // ACBB
+                case 3: q[0] = &A;  q[1] = &Bq; q[2] = &Bq; q[3] = &Bq; break; // ABBB
+                case 4: q[0] = &Bq; q[1] = &Bq; q[2] = &Bq; q[3] = &A;  break; // BBBA
+                case 5: q[0] = &Bq; q[1] = &Bq; q[2] = &Bq; q[3] = &Bq; break; // BBBB
+                default: q[0] = &Bq; q[1] = &Bq; q[2] = &C; q[3] = &C;  break; // BBCC
+            }
+            static const char* PN[7] = {"ABBC", "BBAC", "ACBB", "ABBB", "BBBA", "BBBB", "BBCC"};
+            const Q r[4] = {toQ (*q[0]), toQ (*q[1]), toQ (*q[2]), toQ (*q[3])};
+            bool ok = true;
+            for (int i = 0; i < 3 && ok; ++i)
+                if (q[i] != q[i + 1] && qangle (r[i], r[i + 1]) > 3 * PI / 4) ok = false;
+            if (!ok) { ++rc.skipped; continue; }
+            auto desc = [&] () { return std::string ("pattern ") + PN[pat] + " B=" + S[bi].name + " keys " + qs (*q[0]) + " " + qs (*q[1]) + " " + qs (*q[2]) + " " + qs (*q[3]); };
+            const Q ia = intermediate_ref (r[0], r[1], r[2]), ib = intermediate_ref (r[1], r[2], r[3]);
+            ++rc.tuples; ++rc.pattern[pat]; ++tl.states;
+            // intermediate of both triples
+            {
+                Quat<T> ga = intermediate (*q[0], *q[1], *q[2]), gb = intermediate (*q[1], *q[2], *q[3]);
+                tl.trans += 2;
+                LD da = qmaxdiff (toQ (ga), ia), db = qmaxdiff (toQ (gb), ib);
+                if (!qfinite (toQ (ga)) || !(da == da)) da = 1e30L;
+                if (!qfinite (toQ (gb)) || !(db == db)) db = 1e30L;
+                mx (rc.w_int, std::max (da, db) / e);
+                if (!(da <= 48 * e)) R ().fail (site<T> ("intermediate", "=q1*exp(-(log(q1^-1*q2)+log(q1^-1*q0))/4).repeated-key"), desc () + " triple (q0,q1,q2)", qs (ia) + " to 48 eps", qs (ga));
+                if (!(db <= 48 * e)) R ().fail (site<T> ("intermediate", "=q1*exp(-(log(q1^-1*q2)+log(q1^-1*q0))/4).repeated-key"), desc () + " triple (q1,q2,q3)", qs (ib) + " to 48 eps", qs (gb));
+            }
+            const LD a12 = qangle (r[1], r[2]), aab = qangle (ia, ib);
+            if (!(aab < PI - 0.25L)) { ++rc.skipped; continue; }
+            for (int ti = -2; ti < 5; ++ti)
+            {
+                const LD t  = ti == -2 ? 0 : ti == -1 ? 1 : TI[ti];
+                Q        s1 = slerp_ref (r[1], r[2], t), s2 = slerp_ref (ia, ib, t);
+                LD       a3 = qangle (s1, s2), km = std::max (std::max (kappa (a12), kappa (aab)), kappa (a3));
+                // a3 = pi exactly (outer slerp between antipodes: excluded by slerp's documentation) gives sin(a3) <= 0 in long double, so test the arc itself too
+                if (!(a3 < PI - 0.25L) || km > 4) { ++rc.skipped; continue; }
+                Quat<T> g  = spline (*q[0], *q[1], *q[2], *q[3], (T) t);
+                Q       gr = toQ (g);
+                ++tl.trans;
+                const std::string in = desc () + " t=" + vf::fmt ((double) t);
+                if (!qfinite (gr)) { R ().fail (site<T> ("spline", "finite.repeated-key"), in, "finite unit quaternion", qs (g)); continue; }
+                if (ti < 0)
+                {
+                    const Q want = qunit (ti == -2 ? r[1] : r[2]);
+                    LD      d    = qmaxdiff (gr, want);
+                    mx (rc.w_key, d / e);
+                    if (!(d <= 16 * e)) R ().fail (site<T> ("spline", ti == -2 ? "t=0-passes-through-q1.repeated-key" : "t=1-passes-through-q2.repeated-key"), in, qs (want) + " to 16 eps", qs (g));
+                    continue;
+                }
+                if (!(fabsl (qnorm (gr) - 1) <= 4 * e)) R ().fail (site<T> ("spline", "unit.repeated-key"), in, "|q| = 1 to 4 eps", qs (g));
+                Q  ref = slerp_ref (s1, s2, 2 * t * (1 - t));
+                LD d = qmaxdiff (gr, ref), tol = 256 * e * km * km;
+                mx (rc.w_interior, d / tol);
+                if (!(d <= tol)) R ().fail (site<T> ("spline", "interior=squad(q1,intermediate(q0,q1,q2),intermediate(q1,q2,q3),q2,t).repeated-key"), in, qs (ref) + " to 256 eps kappa^2, kappa=" + vf::fmt ((double) km), qs (g));
+            }
+        }
+        std::lock_guard<std::mutex> g (mu);
+        total.merge (tl);
+        rtotal.merge (rc);
+    });
+}
+
 } // namespace
 
 void run_slerp ()
@@ -472,6 +606,29 @@ void run_slerp ()
     R ().stage_done (std::string ("slerp/slerpShortestArc on all ordered pairs of ") + (th ? "648" : "104") +
                      " unit quaternions (group + normalised lattice) x 11 values of t, nearly antipodal and nearly equal families j=1..15, tiny t / 1-t on every pair; squad/spline keys on 24^4 group tuples; squad/spline/intermediate at 5 interior t on 10^4 normalised-lattice key tuples; "
                      "tangent continuity on " + std::string (th ? "16^5" : "10^5") + " key 5-tuples; float and double");
+}
+
+void run_repeated_keys ()
+{
+    if (!R ().stage ("spline-repeated-keys")) return;
+    const bool th = R ().thorough ();
+    Tally      tl;
+    RepCnt     rc;
+    repeated_keys<float> (tl, rc, th);
+    repeated_keys<double> (tl, rc, th);
+    R ().add ("states", tl.states); R ().add ("transitions", tl.trans); R ().add ("evaluations", tl.states);
+    R ().add ("repeated_key_tuples_or_parameters_skipped_ill_conditioned", rc.skipped);
+    R ().cls ("repeated-key.(inverse(q)*q).r>1", rc.c_above1);
+    R ().cls ("repeated-key.(inverse(q)*q).r=1", rc.c_eq1);
+    R ().cls ("repeated-key.(inverse(q)*q).r<1", rc.c_below1);
+    R ().cls ("repeated-key.key-unit-within-rounding(r=1+-ulp)", rc.near_identity_keys);
+    static const char* PN[7] = {"ABBC", "BBAC", "ACBB", "ABBB", "BBBA", "BBBB", "BBCC"};
+    for (int i = 0; i < 7; ++i) R ().cls (std::string ("repeated-key.pattern-") + PN[i], rc.pattern[i]);
+    R ().note_max ("repeated keys: intermediate worst error in eps (bound 48)", rc.w_int);
+    R ().note_max ("repeated keys: spline at t=0,1 worst error in eps (bound 16)", rc.w_key);
+    R ().note_max ("repeated keys: spline interior worst error / bound (256 eps kappa^2)", rc.w_interior);
+    R ().sample ("spline(q0, q, q, q3, t) with a held key q: passes through q at t=0,1, unit and equal to the documented squad in between");
+    R ().stage_done (std::string ("held key B over 648 unit quaternions + 6 unit-within-rounding ones x A, C over 10 keys x patterns ABBC, BBAC, ACBB, ABBB, BBBA, BBBB, BBCC x {intermediate (both triples), spline at t = 0, 1 and 5 interior t}; float and double"));
 }
 
 } // namespace c10
